@@ -800,8 +800,8 @@ class Frame(object):
             if t_profile.shape != self.ts.shape:
                 raise ValueError('Shape of t_profile array is {0} != {1}.'
                                  .format(t_profile.shape, self.ts.shape))
-        elif isinstance(t_profile, (int, float)):
-            t_profile = np.full(self.tchans, t_profile)
+        elif isinstance(t_profile, (int, float, np.number)):
+            t_profile = np.full(self.tchans, t_profile, dtype=float)
         else:
             raise TypeError('t_profile is not a function, array, or float.')
         _, t_profile_tt = np.meshgrid(restricted_fs, t_profile)
@@ -840,8 +840,8 @@ class Frame(object):
             elif path.shape != self.ts.shape:
                 raise ValueError(f'Shape of path array is {path.shape} '
                                  f'!= {self.ts.shape}.')
-        elif isinstance(path, (int, float)):
-            path = np.full(tchans_eff, path)
+        elif isinstance(path, (int, float, np.number)):
+            path = np.full(tchans_eff, path, dtype=float)
         else:
             raise TypeError('path is not a function, array, or float.')
         # Ensure that path f_centers are the right length
@@ -862,8 +862,8 @@ class Frame(object):
                 raise ValueError('Shape of bp_profile array is {0} != {1}.'
                                  .format(bp_profile.shape,
                                          restricted_fs.shape))
-        elif isinstance(bp_profile, (int, float)):
-            bp_profile = np.full(restricted_fs.shape, bp_profile)
+        elif isinstance(bp_profile, (int, float, np.number)):
+            bp_profile = np.full(restricted_fs.shape, bp_profile, dtype=float)
         else:
             raise TypeError('bp_profile is not a function, array, or float.')
         bp_profile_ff, _ = np.meshgrid(bp_profile, self.ts)
